@@ -401,7 +401,11 @@ void command_handler::get(const std::vector<std::string> & args)
 
     std::error_code ec;
 
-    if (std::filesystem::exists(local_file, ec))
+    /* Do not follow a symbolic link: a link whose target does not exist is an
+     * existing file as well. Opening it would create the target, and the link
+     * would be removed if the server refuses the download.
+     */
+    if (std::filesystem::exists(std::filesystem::symlink_status(local_file, ec)))
     {
         throw cmdline_exception("File '%1%' already exists.", local_file);
     }
